@@ -819,3 +819,183 @@ E("EQ-ssi-get-mark-first", OWT,
         self.cm.mark_read(keyspace.id, k);
 
         self.inner.get(keyspace, key.as_ref())""")
+
+# ======================================================================== C06
+B("C06-publish-inside-loop", "C06", "C06:R-C06.1:batch::WriteBatch::commit:publish-once", BATCH,
+  """            batch_size += item_size;
+""",
+  """            batch_size += item_size;
+            self.db.supervisor.snapshot_tracker.publish(batch_seqno);
+""")
+B("C06-seqno-per-item", "C06", "C06:R-C06.1:batch::WriteBatch::commit", BATCH,
+  """                ValueType::Tombstone => item.keyspace.tree.remove(item.key, batch_seqno),""",
+  """                ValueType::Tombstone => item.keyspace.tree.remove(item.key, self.db.supervisor.seqno.next()),""")
+B("C06-publish-without-plus-one", "C06", "C06:R-C06.2", TRACKER,
+  "self.seqno.fetch_max(batch_seqno + 1);", "self.seqno.fetch_max(batch_seqno);")
+B("C06-publish-wrong-seqno", "C06", "C06:R-C06.1:keyspace::Keyspace::insert:publish", KS,
+  """        let (item_size, memtable_size) = self.tree.insert(key, value, seqno);
+
+        self.supervisor.snapshot_tracker.publish(seqno);""",
+  """        let (item_size, memtable_size) = self.tree.insert(key, value, seqno);
+
+        self.supervisor.snapshot_tracker.publish(self.supervisor.seqno.get());""")
+B("C06-tree-private-visible-counter", "C06", "C06:R-C06.4:keyspace::Keyspace::create_new", KS,
+  """            db.supervisor.seqno.clone(),
+            db.supervisor.snapshot_tracker.get_ref(),
+        )
+        .use_descriptor_table(db.config.descriptor_table.clone())
+        .use_cache(db.config.cache.clone());
+
+        let base_config = apply_to_base_config(base_config, &config);
+        let tree = base_config.open()?;""",
+  """            db.supervisor.seqno.clone(),
+            lsm_tree::SequenceNumberCounter::default(),
+        )
+        .use_descriptor_table(db.config.descriptor_table.clone())
+        .use_cache(db.config.cache.clone());
+
+        let base_config = apply_to_base_config(base_config, &config);
+        let tree = base_config.open()?;""")
+B("C06-tracker-own-counter", "C06", "C06:R-C06.4:db::Database::create_new", DB,
+  """            snapshot_tracker: SnapshotTracker::new(visible_seqno),
+            journal,""",
+  """            snapshot_tracker: SnapshotTracker::new(SequenceNumberCounter::default()),
+            journal,""")
+B("C06-open-reads-generator", "C06", "C06:R-C06.3", TRACKER,
+  """    pub fn new(seqno: SequenceNumberCounter) -> Self {
+        Self(Arc::new(SnapshotTrackerInner {
+            data: DashMap::default(),
+            freed_count: AtomicU64::default(),
+            lowest_freed_instant: AtomicU64::default(),
+            seqno,""",
+  """    pub fn new(seqno: SequenceNumberCounter) -> Self {
+        let _ = seqno;
+        Self(Arc::new(SnapshotTrackerInner {
+            data: DashMap::default(),
+            freed_count: AtomicU64::default(),
+            lowest_freed_instant: AtomicU64::default(),
+            seqno: SequenceNumberCounter::default(),""")
+B("C06-clear-journal-other-seqno", "C06", "C06:R-C06.1:keyspace::Keyspace::clear:write_clear", KS,
+  """            .write_clear(self.id, seqno)""", """            .write_clear(self.id, seqno + 1)""")
+
+# ======================================================================== C03
+BRD = "src/journal/batch_reader.rs"
+B("C03-emit-when-counter-hits-zero", "C03", "C03:R-C03.2", BRD,
+  """                    self.batch_counter -= 1;
+
+                    self.items.push(ReadBatchItem {
+                        keyspace_id,
+                        key,
+                        value,
+                        value_type,
+                    });""",
+  """                    self.batch_counter -= 1;
+
+                    self.items.push(ReadBatchItem {
+                        keyspace_id,
+                        key,
+                        value,
+                        value_type,
+                    });
+
+                    if self.batch_counter == 0 {
+                        let items = std::mem::take(&mut self.items);
+                        let cleared_keyspaces = std::mem::take(&mut self.cleared_keyspaces);
+                        return Some(Ok(Batch {
+                            seqno: self.batch_seqno,
+                            items,
+                            cleared_keyspaces,
+                        }));
+                    }""")
+B("C03-no-checksum-compare", "C03", "C03:R-C03.2:<journal::batch_reader::JournalBatchReader as std::iter::Iterator>::next:emit-requires-checksum-match", BRD,
+  """                    if got_checksum != expected_checksum {""", """                    if got_checksum != expected_checksum && expected_checksum == 0 {""")
+B("C03-checksum-polarity", "C03", "C03:R-C03.2:<journal::batch_reader::JournalBatchReader as std::iter::Iterator>::next:emit-requires-checksum-match", BRD,
+  """                    if got_checksum != expected_checksum {""", """                    if got_checksum == expected_checksum {""")
+B("C03-valid-pos-at-start", "C03", "C03:R-C03.3:<journal::batch_reader::JournalBatchReader as std::iter::Iterator>::next:last_valid_pos", BRD,
+  """                    self.is_in_batch = true;
+                    self.batch_counter = item_count;""",
+  """                    self.is_in_batch = true;
+                    self.last_valid_pos = journal_file_pos;
+                    self.batch_counter = item_count;""")
+B("C03-no-truncate-on-nested-start", "C03", "C03:R-C03.3:<journal::batch_reader::JournalBatchReader as std::iter::Iterator>::next:none", BRD,
+  """                        log::debug!("Invalid batch: found batch start inside batch");
+
+                        // Discard batch
+                        fail_iter!(self.truncate_to(self.last_valid_pos));
+
+                        return None;""",
+  """                        log::debug!("Invalid batch: found batch start inside batch");
+
+                        return None;""")
+B("C03-on-close-no-truncate", "C03", "C03:R-C03.3:journal::batch_reader::JournalBatchReader::on_close", BRD,
+  """            // Discard batch
+            self.truncate_to(self.last_valid_pos)?;
+        }
+
+        Ok(())""",
+  """        }
+
+        Ok(())""")
+B("C03-end-in-loop", "C03", "C03:R-C03.1:journal::writer::Writer::write_batch", WRITER,
+  """            hasher.update(&self.buf);
+            byte_count += self.buf.len();
+
+            self.buf.clear();
+        }
+
+        let checksum = hasher.finish();
+        byte_count += self.write_end(checksum)?;""",
+  """            hasher.update(&self.buf);
+            byte_count += self.buf.len();
+
+            self.buf.clear();
+            byte_count += self.write_end(hasher.finish())?;
+            self.buf.clear();
+        }
+""")
+B("C03-count-off", "C03", "C03:R-C03.1:journal::writer::Writer::write_raw:start-carries", WRITER,
+  """        self.buf.clear();
+        byte_count += self.write_start(1, seqno)?;
+        self.buf.clear();
+
+        serialize_marker_item(""",
+  """        self.buf.clear();
+        byte_count += self.write_start(2, seqno)?;
+        self.buf.clear();
+
+        serialize_marker_item(""")
+B2("C03-tx-batch-per-keyspace", "C03", "C03:R-C03.5:tx::write_tx::BaseTransaction::commit", [
+    ("src/tx/write_tx.rs",
+     """        let mut batch = OwnedWriteBatch::new(self.db).durability(self.durability);
+
+        for (keyspace, memtable) in self.memtables {
+            let mut prev_key: Option<UserKey> = None;
+""",
+     """        let db = self.db;
+
+        for (keyspace, memtable) in self.memtables {
+            let mut batch = OwnedWriteBatch::new(db.clone()).durability(self.durability);
+            let mut prev_key: Option<UserKey> = None;
+"""),
+    ("src/tx/write_tx.rs",
+     """                prev_key = Some(item.key.user_key.clone());
+            }
+        }
+
+        batch.commit()?;
+
+        Ok(())""",
+     """                prev_key = Some(item.key.user_key.clone());
+            }
+
+            batch.commit()?;
+        }
+
+        Ok(())""")])
+B("C03-skip-hash-of-clear", "C03", "C03:R-C03.2:<journal::batch_reader::JournalBatchReader as std::iter::Iterator>::next:accepted-items-are-hashed", BRD,
+  """                    fail_iter!(entry.encode_into(&mut bytes));
+
+                    self.checksum_builder.update(&bytes);
+""",
+  """                    fail_iter!(entry.encode_into(&mut bytes));
+""")
